@@ -53,19 +53,26 @@ def graph_relations(graph_text: str) -> dict:
         if not key.startswith("step:"):
             continue
         rel = node["rel"]
+        props = node["props"]
         info = {"inputs": set(), "outputs": set(), "creator": None,
-                "nglobs": list(node["props"].get("nglob", [])),
-                "detached": raw_key.strip().startswith("("), "dyn_inputs": set()}
+                "nglobs": list(props.get("nglob", [])),
+                "detached": raw_key.strip().startswith("("), "dyn_inputs": set(), "dyn_outputs": set(),
+                # the DECLARED need ("DEFAULT (implied by sinks > OPTIONAL)": declared OPTIONAL, needed by a sink)
+                "need": ((props.get("need") or ["?"])[0].rstrip(")").split() or ["?"])[-1],
+                "state": (props.get("state") or ["?"])[0],
+                "env": {v.replace("[dynamic]", "").strip() for v in props.get("using_env", [])}}
         for k0 in rel.get("source", []):
             k = _strip(k0)
             if k.startswith("file:"):
                 info["inputs"].add(k[5:])
                 if k0.strip().endswith("[dynamic]"):
                     info["dyn_inputs"].add(k[5:])
-        for k in rel.get("sink", []):
-            k = _strip(k)
+        for k0 in rel.get("sink", []):
+            k = _strip(k0)
             if k.startswith("file:"):
                 info["outputs"].add(k[5:])
+                if k0.strip().endswith("[dynamic]"):
+                    info["dyn_outputs"].add(k[5:])
         for k in rel.get("creator", []):
             k = _strip(k)
             if k.startswith("step:"):
@@ -98,15 +105,40 @@ def _glob_matches(line: str, path: str) -> bool:
         return True
 
 
+ENV_PREFIX = "env:"          # an edited tracked variable in the list of edited "paths"
+
+
+def split_edited(edited: list) -> tuple[set, set]:
+    """(edited paths, edited variable names)"""
+    return ({p for p in edited if not p.startswith(ENV_PREFIX)},
+            {p[len(ENV_PREFIX):] for p in edited if p.startswith(ENV_PREFIX)})
+
+
+def optional_upstream_shape(label: str, executed: list, pre: dict, post: dict) -> list:
+    """The circumstance of finding D38 (C04_full_refuted), and nothing else: `label` was an attached OPTIONAL step
+    that the previous build left idle (PENDING), and an output of it is consumed after the rebuild by ANOTHER
+    EXECUTED step that did not consume it before (new, or declared differently).  Returns those consumers."""
+    a = pre.get(label)
+    if a is None or a["detached"] or a["need"] != "OPTIONAL" or a["state"] != "PENDING":
+        return []
+    outs = set(a["outputs"]) | set(post.get(label, a)["outputs"])
+    return sorted(o for o in set(executed) - {label}
+                  if o in post and post[o]["inputs"] & outs
+                  and not (o in pre and not pre[o]["detached"] and pre[o]["inputs"] & outs))
+
+
 def unjustified(executed: list, edited: list, pre: dict, post: dict) -> list:
     """Executed labels that satisfy none of the clauses of the property."""
     exe = set(executed)
+    edited, edited_env = split_edited(edited)
     bad = []
     for label in sorted(exe):
         infos = [g[label] for g in (pre, post) if label in g]
         inputs = set().union(*[i["inputs"] for i in infos]) if infos else set()
         if inputs & set(edited):
             continue                                            # consumes an edited file
+        if edited_env and any(i["env"] & edited_env for i in infos):
+            continue                                            # tracks an edited variable
         if any(_glob_matches(pat, p) for i in infos for pat in i["nglobs"] for p in edited):
             continue                                            # matches it with a glob pattern
         ok = False
@@ -123,36 +155,70 @@ def unjustified(executed: list, edited: list, pre: dict, post: dict) -> list:
     return bad
 
 
+def _ancestors(label: str, g: dict) -> set:
+    out, cur = set(), g.get(label, {}).get("creator")
+    while cur is not None and cur not in out:
+        out.add(cur)
+        cur = g.get(cur, {}).get("creator")
+    return out
+
+
+def dyn_inputs_stay_attached(label: str, executed: set, pre: dict, files_before: dict) -> bool:
+    """No amended input of `label` can become unavailable (detached, missing) during the rebuild: each one exists,
+    is a DECLARED output of a step of the previous graph (an amended output is detached while its producer
+    reruns) and no creator up the chain of that producer is executed (a rerun plan detaches what it declared
+    until it declares it again).  Then the step is never handed out for validation of its dynamic inputs, and the
+    plain skip rule applies to it."""
+    for p in pre[label]["dyn_inputs"]:
+        if p not in files_before:
+            return False
+        prod = [q for q, i in pre.items() if p in i["outputs"] and not i["detached"]]
+        if len(prod) != 1 or p in pre[prod[0]]["dyn_outputs"]:
+            return False                                        # a static file or an amended output: left out
+        if _ancestors(prod[0], pre) & executed:
+            return False
+    return True
+
+
 def rerun_without_cause(executed: list, edited: list, pre: dict, post: dict, files_before: dict,
-                        files_after: dict) -> list:
+                        files_after: dict, stats: dict | None = None) -> list:
     """The rule behind the skip check: a step whose inputs did not change is skipped, not executed.
-    Executed labels that existed before with the same declared inputs and outputs, no amended input, all outputs
-    on disk, consume no edited path (nor
-    match one with a glob pattern) and none of whose input files has another content after the rebuild than
-    before it.  (Tracked variables do not change in the cone phase.)  Stricter than the clauses of the property:
+    Executed labels that existed before with the same declared inputs and outputs, all outputs
+    on disk, consume no edited path (nor match one with a glob pattern), track no edited variable and none of whose
+    input files has another content after the rebuild than before it.  Stricter than the clauses of the property:
     a step behind an executed step that reproduced its output identically, or behind a skipped step, or a
-    recycled step of a rerun plan, has to be skipped."""
+    recycled step of a rerun plan, has to be skipped (Coq: C04_absorbed_cone_stops)."""
     bad = []
-    for label in sorted(set(executed)):
+    edited, edited_env = split_edited(edited)
+    exe = set(executed)
+    for label in sorted(exe):
         if label not in pre or label not in post or pre[label]["detached"]:
             continue                                            # new, dropped, or was not part of the build
         a, b = pre[label], post[label]
         if a["inputs"] != b["inputs"] or a["outputs"] != b["outputs"]:
             continue                                            # declared differently
         inputs = a["inputs"]
+        dyn = bool(a["dyn_inputs"] or b["dyn_inputs"])
+        dyn_ok = dyn and a["dyn_inputs"] == b["dyn_inputs"] and dyn_inputs_stay_attached(label, exe, pre, files_before)
+        if stats is not None and dyn:
+            key = "cone:skip_rule:executed_amended_step:" + ("in_scope" if dyn_ok else "left_to_the_clauses")
+            stats[key] = stats.get(key, 0) + 1
         if any(p not in files_before for p in a["outputs"]):
             continue                                            # never built (or reverted): nothing to skip to
         if inputs & set(edited):
             continue
+        if edited_env & (a["env"] | b["env"]):
+            continue                                            # tracks an edited variable
         if any(_glob_matches(pat, p) for i in (a, b) for pat in i["nglobs"] for p in edited):
             continue
         if any(files_before.get(p) != files_after.get(p) for p in inputs):
             continue                                            # an input has other content now
-        # Steps with AMENDED inputs are left to the clauses of the property: while a producer runs, or while a
-        # rerun plan has not yet re-declared the sub-plan that owns the producer, such a step may be handed out
-        # for validation of its dynamic inputs, finds one unavailable, loses its hash (validate_dynamic_job ->
-        # _reset_step_to_pending) and is executed later; whether that happens depends on the schedule.
-        if a["dyn_inputs"] or b["dyn_inputs"]:
+        # Steps with AMENDED inputs: while a producer's creator reruns (a rerun plan has not yet re-declared the
+        # sub-plan that owns the producer), or when the input is an amended output of a rerunning producer, such a
+        # step may be handed out for validation of its dynamic inputs, finds one unavailable, loses its hash
+        # (validate_dynamic_job -> _reset_step_to_pending) and is executed later; whether that happens depends on
+        # the schedule.  They are left to the clauses of the property unless that cannot happen.
+        if dyn and not dyn_ok:
             continue
         bad.append(label)
     return bad
@@ -222,13 +288,25 @@ def compare_noop(ref: e3.BuildResult, new: e3.BuildResult, flavour: str, variant
 # ---------------------------------------------------------------------------------------------
 
 
-def plan_source_edits(rng: random.Random, proj: e3.Project, graph: dict) -> tuple[list, list]:
-    """Choose edits of source files only.  Returns (e3 edits, edited paths)."""
+def plan_source_edits(rng: random.Random, proj: e3.Project, graph: dict, env_edits: bool = False) -> tuple[list, list]:
+    """Choose edits of source files (and, with env_edits, of tracked variables).  Returns (e3 edits, edited
+    paths; an edited variable NAME appears as "env:NAME")."""
     sources = sorted(p for p in proj.sources if not p.endswith("/"))
     scripts = sorted(p for p in proj.program.get("scripts", {}) if p != "plan.py")
     if not sources:
         return [], []
     edits, edited = [], []
+    tracked = sorted({n for info in graph.values() if not info["detached"] for n in info["env"]})
+    if env_edits and tracked and rng.random() < 0.3:
+        # a tracked variable changes together with the sources (restart flavour: the director starts in
+        # another environment); sometimes only the variable changes
+        name = rng.choice(tracked)
+        old = proj.env.get(name)
+        new = rng.choice([v for v in (None, f"{name.lower()}_c04x", f"{name.lower()}_c04y") if v != old])
+        edits.append({"op": "setenv", "name": name, "value": new})
+        edited.append(ENV_PREFIX + name)
+        if rng.random() < 0.3:
+            return edits, edited
     k = rng.choice([1, 1, 1, 2, 2, 3])
     for p in rng.sample(sources, min(k, len(sources))):
         kind = rng.choices(["change", "change_same_size", "recreate_same", "delete", "touch"],
@@ -430,8 +508,8 @@ def optional_upstream_item(flavour: str) -> dict:
 def run_optional_upstream(flavour: str) -> dict:
     """Replay the witness on the real director.  Returns {"reproduced": bool, "report": ...}."""
     rep = run_case(optional_upstream_item(flavour))
-    hit = [f for f in rep["failures"] if f["signature"] == f"oracle:cone:{flavour}:executed-outside-cone"
-           and f.get("unjustified") == ["tu"]]
+    hit = [f for f in rep["failures"] if f["signature"] == OPTIONAL_UPSTREAM_SIGNATURE
+           and f.get("unjustified") == ["tu"] and f.get("needed_by") == {"tu": ["tx"]}]
     other = [f for f in rep["failures"] if f not in hit]
     return {"reproduced": bool(hit), "other": other, "report": rep}
 
@@ -583,20 +661,35 @@ def run_env_multi(item: dict) -> dict:
 INJECTED_ENV = ["SOURCE_DATE_EPOCH", "STEPUP_ROOT", "STEPUP_BUILD_LOG_LEVEL"]
 
 
-def gen_absorbed(rng: random.Random) -> tuple[e3.Project, list, list, str]:
-    """Project, cone edits, edited paths, variant.
+ABSORBED_FEATURES = (("amend", 0.4), ("glob", 0.4), ("optional", 0.4), ("envedit", 0.3))
+
+
+def gen_absorbed(rng: random.Random) -> tuple[e3.Project, list, list, str, dict | None]:
+    """Project, cone edits, edited paths ("env:NAME" for a variable), variant, engine description.
     chain:  sources x<i>.txt; an absorber ta<i> reads x<i>.txt and writes a CONSTANT a<i>.out; behind it a chain
             tb<i>_0 -> tb<i>_1 -> ... of steps that track 0-2 variables out of the injected ones and VA; next to it
             sometimes td (x0.txt -> d.out, content depends on the input) with a consumer te.  The edit changes the
             sources: the absorbers run and reproduce their outputs, everything behind them is checked and skipped.
     nested: the same steps are declared by a sub-plan ./p2.py of plan.py; the edit appends a byte to plan.py: the
-            plan is rerun and declares everything as before; ./p2.py and its steps are recycled, checked, skipped."""
+            plan is rerun and declares everything as before; ./p2.py and its steps are recycled, checked, skipped.
+    Features (independent, each with its probability): behind an absorber
+      amend     a script step ./wb<i>.py that AMENDS a<i>.out as input (dynamic edge) and a consumer tw<i>;
+      glob      glob("gq_*.txt") + static + one absorber "gab <match>" per match, a consumer tgc of one of their
+                outputs; the edit changes a matching file and/or adds a new match (the owner of the pattern is
+                rerun and recycles what it declared before; the new step runs);
+      optional  an OPTIONAL step to (a0.out -> to.out) that a mandatory step tm needs;
+      envedit   the variable VA changes together with the sources (restart flavour only).
+    engine: for the fixed-plan shapes (chain without amend / glob) the description of the project as a project of
+    model/Engine.v with the two worlds, for the evaluation of the model inside Coq (None otherwise)."""
     variant = rng.choice(["chain", "chain", "nested"])
+    feats = sorted(f for f, pr in ABSORBED_FEATURES if rng.random() < pr)
     nsrc = rng.randint(1, 2)
     sources = {f"x{i}.txt": f"source {i} v0\n" for i in range(nsrc)}
     pool = INJECTED_ENV + ["VA"]
     decl = [{"op": "static", "paths": sorted(sources)}]
     commands = {}
+    scripts = {}
+    msteps = []                     # engine description: (label, inputs, variables, outputs, constant?)
 
     def tracked():
         k = rng.choice([0, 1, 1, 2])
@@ -605,43 +698,131 @@ def gen_absorbed(rng: random.Random) -> tuple[e3.Project, list, list, str]:
             env = sorted(set(env) | {rng.choice(INJECTED_ENV)})
         return env
 
-    def step(label, inp, out, env):
+    def step(label, inp, out, env, need=None):
         a = {"op": "step", "label": label, "inp": inp, "out": out}
         if env:
             a["env"] = env
+        if need:
+            a["need"] = need
         decl.append(a)
         commands[label] = [{"op": "getenv", "name": n} for n in env] + [{"op": "auto"}]
+        msteps.append((label, list(inp), list(env), list(out), False))
+
+    def absorber(label, src, out, text):
+        commands[label] = [{"op": "read", "paths": [src], "required": True},
+                           {"op": "write", "path": out, "content": text}]
 
     for i in range(nsrc):
         decl.append({"op": "step", "label": f"ta{i}", "inp": [f"x{i}.txt"], "out": [f"a{i}.out"]})
-        commands[f"ta{i}"] = [{"op": "read", "paths": [f"x{i}.txt"], "required": True},
-                              {"op": "write", "path": f"a{i}.out", "content": f"constant output {i}\n"}]
+        absorber(f"ta{i}", f"x{i}.txt", f"a{i}.out", f"constant output {i}\n")
+        msteps.append((f"ta{i}", [f"x{i}.txt"], [], [f"a{i}.out"], True))
         prev = f"a{i}.out"
         for j in range(rng.randint(1, 3)):
             out = f"b{i}_{j}.out"
             step(f"tb{i}_{j}", [prev], [out], tracked())
             prev = out
+        if "amend" in feats and (i == 0 or rng.random() < 0.5):
+            scripts[f"wb{i}.py"] = [{"op": "amend", "inp": [f"a{i}.out"]},
+                                    {"op": "read", "paths": [f"a{i}.out"], "required": True}, {"op": "auto"}]
+            decl.append({"op": "static", "paths": [f"wb{i}.py"]})
+            decl.append({"op": "run", "label": f"./wb{i}.py", "inp": [], "out": [f"wb{i}.out"]})
+            step(f"tw{i}", [f"wb{i}.out"], [f"tw{i}.out"], tracked())
     with_direct = rng.random() < 0.5
     if with_direct:
         step("td", ["x0.txt"], ["d.out"], tracked())
         step("te", ["d.out"], ["e.out"], tracked())
-    scripts = {}
-    if variant == "nested":
-        scripts["p2.py"] = decl
-        scripts["plan.py"] = [{"op": "static", "paths": ["p2.py"]}, {"op": "plan", "label": "./p2.py"}]
-        edits, edited = [{"op": "rawappend", "path": "plan.py"}], ["plan.py"]
-    else:
-        scripts["plan.py"] = decl
-        edits, edited = [], []
-        for p in sorted(sources):
-            if not edits or rng.random() < 0.6:
-                edits.append({"op": "write", "path": p, "content": sources[p] + "edited\n"})
-                edited.append(p)
+    if "optional" in feats:
+        step("to", ["a0.out"], ["to.out"], tracked(), need="OPTIONAL")
+        step("tm", ["to.out"], ["tm.out"], tracked())
+    if "glob" in feats:
+        for k in ("1", "2"):
+            sources[f"gq_{k}.txt"] = f"glob source {k} v0\n"
+        decl.append({"op": "glob", "pattern": "gq_*.txt", "subs": {}, "static": True, "foreach": [
+            {"op": "step", "label": "gab {m}", "inp": ["{m}"], "out": ["gqo_{stem}.out"]}]})
+        for k in ("1", "2", "7"):
+            absorber(f"gab gq_{k}.txt", f"gq_{k}.txt", f"gqo_gq_{k}.out", f"constant glob output {k}\n")
+        step("tgc", ["gqo_gq_1.out"], ["tgc.out"], tracked())
     env = {"VA": "va0"}
     if rng.random() < 0.25:
         env["SOURCE_DATE_EPOCH"] = "1700000000"        # then the director does not inject its own value
+    edits, edited = [], []
+    if variant == "nested":
+        scripts["p2.py"] = decl
+        scripts["plan.py"] = [{"op": "static", "paths": ["p2.py"]}, {"op": "plan", "label": "./p2.py"}]
+        edits.append({"op": "rawappend", "path": "plan.py"})
+        edited.append("plan.py")
+    else:
+        scripts["plan.py"] = decl
+        for p in sorted(q for q in sources if q.startswith("x")):
+            if not edits or rng.random() < 0.6:
+                edits.append({"op": "write", "path": p, "content": sources[p] + "edited\n"})
+                edited.append(p)
+    if "glob" in feats:
+        how = rng.choice(["change", "add", "both"])
+        if how in ("change", "both"):
+            edits.append({"op": "write", "path": "gq_1.txt", "content": sources["gq_1.txt"] + "edited\n"})
+            edited.append("gq_1.txt")
+        if how in ("add", "both"):
+            edits.append({"op": "write", "path": "gq_7.txt", "content": "glob source 7 v0\n"})
+            edited.append("gq_7.txt")
+    if "envedit" in feats:
+        edits.append({"op": "setenv", "name": "VA", "value": "va1"})
+        edited.append(ENV_PREFIX + "VA")
     project = e3.Project(dict(sources), {"scripts": scripts, "commands": commands}, env)
-    return project, edits, edited, variant
+    engine = None
+    if variant == "chain" and "amend" not in feats and "glob" not in feats:
+        engine = {"steps": msteps, "sources": dict(sources), "env": dict(env),
+                  "edits": [e for e in edits if e["op"] in ("write", "setenv")]}
+    return project, edits, edited, "+".join([variant] + feats), engine
+
+
+def engine_term(engine: dict, flavour: str, first_ran: list, cone_log: dict) -> str:
+    """The Gallina term `check_cone_hist (absorb_run consts) proj empty_sys [phase0; phase1]` (model/NoopExec.v):
+    the engine model run on the same two worlds must execute exactly the steps the real director executed, check
+    and skip only steps the director checked and skipped, and change exactly the outputs that changed."""
+    from . import common
+    pid, eid, cid = {}, {}, {}
+
+    def num(d, k, base):
+        return d.setdefault(k, base + len(d))
+    labels = {}
+    steps = []
+    for label, inp, env, out, const in engine["steps"]:
+        labels[label] = 1000 + len(labels)
+        steps.append(f"mkStep {labels[label]} {common.coq_list([str(num(pid, p, 1)) for p in inp])} "
+                     f"{common.coq_list([str(num(eid, n, 1)) for n in env])} "
+                     f"{common.coq_list([str(num(pid, p, 1)) for p in out])}")
+    consts = [str(labels[s[0]]) for s in engine["steps"] if s[4]]
+    outs = sorted(p for s in engine["steps"] for p in s[3])
+
+    def world(sources, env):
+        src = [f"({num(pid, p, 1)}, {num(cid, 'file:' + c, 1)})" for p, c in sorted(sources.items()) if p in pid]
+        # a variable the director injects has a value of its own whatever the shell says (except SOURCE_DATE_EPOCH)
+        vals = []
+        for n in sorted(eid):
+            v = env.get(n)
+            if n in INJECTED_ENV and v is None:
+                v = "injected"
+            if v is not None:
+                vals.append(f"({eid[n]}, {num(cid, 'env:' + v, 1)})")
+        return common.coq_list(src), common.coq_list(vals)
+    sources, env = dict(engine["sources"]), dict(engine["env"])
+    s0, e0 = world(sources, env)
+    for ed in engine["edits"]:
+        if ed["op"] == "write":
+            sources[ed["path"]] = ed["content"]
+        elif flavour == "restart":
+            env[ed["name"]] = ed.get("value")
+    s1, e1 = world(sources, env)
+
+    def ids(ls):
+        return common.coq_list([str(labels[l]) for l in sorted(set(ls)) if l in labels])
+    chg0 = common.coq_list([f"({pid[p]}, true)" for p in outs])
+    chg1 = common.coq_list([f"({pid[p]}, {common.coq_bool(p in cone_log['changed'])})" for p in outs])
+    ph0 = f"({s0}, {e0}, {ids(first_ran)}, [], {chg0})"
+    ph1 = f"({s1}, {e1}, {ids(cone_log['ran'])}, {ids(cone_log['skipped'])}, {chg1})"
+    return (f"let proj := {common.coq_list(steps)} in wf proj && "
+            f"check_cone_hist (absorb_run {common.coq_list(consts)}) proj empty_sys [{ph0}; {ph1}]")
 
 
 def run_absorbed(item: dict) -> dict:
@@ -649,18 +830,26 @@ def run_absorbed(item: dict) -> dict:
     the generic clauses of the property and the skip rule (rerun_without_cause) on the real director."""
     seed, flavour = item["seed"], item["flavour"]
     rng = random.Random(f"c04-absorbed-{seed}-{flavour}")
+    engine = None
     if "project" in item:
         project = e3.Project.from_json(item["project"])
         edits, edited = item["cone_edits"]
         variant = item.get("variant", "given")
     else:
-        project, edits, edited, variant = gen_absorbed(rng)
+        project, edits, edited, variant, engine = gen_absorbed(rng)
+        if flavour != "restart":                       # a watching director does not see the shell's environment
+            edits = [e for e in edits if e["op"] != "setenv"]
+            edited = [p for p in edited if not p.startswith(ENV_PREFIX)]
     sub = dict(item, project=project.to_json(), history=[], cone_edits=[edits, edited], cone_schedule=None,
                skip_env=True, max_phases=1)
     sub.pop("kind", None)
     rep = run_case(sub)
     rep["kind"], rep["variant"] = "absorbed", variant
-    rep["stats"][f"absorbed:{variant}"] = 1
+    rep["stats"][f"absorbed:{variant.split('+')[0]}"] = 1
+    for feat in variant.split("+")[1:]:
+        rep["stats"][f"absorbed:with:{feat}"] = 1
+    if engine is not None and rep.get("cone_log") and not rep.get("timeout") and rep.get("first_ran") is not None:
+        rep["engine_term"] = engine_term(engine, flavour, rep["first_ran"], rep["cone_log"])
     return rep
 
 
@@ -719,12 +908,34 @@ def _noop_variants(item, rng):
     return [] if item.get("skip_noop") else ["nochange", "samecontent"]
 
 
+def project_shape(pre: dict) -> list:
+    """Features of the recorded graph a cone rebuild starts from (for the distribution in the evidence)."""
+    att = {l: i for l, i in pre.items() if not i["detached"]}
+    plans = {l for l, i in att.items() if i["need"] == "PLAN"}
+    feats = []
+    if any(i["dyn_inputs"] for i in att.values()):
+        feats.append("amended_inputs")
+    if any(i["dyn_outputs"] for i in att.values()):
+        feats.append("amended_outputs")
+    if any(i["nglobs"] for i in att.values()):
+        feats.append("globs")
+    if any(i["env"] for i in att.values()):
+        feats.append("env_vars")
+    if any(i["need"] == "OPTIONAL" and i["state"] == "PENDING" for i in att.values()):
+        feats.append("optional_idle")
+    if any(i["need"] == "OPTIONAL" and i["state"] == "SUCCEEDED" for i in att.values()):
+        feats.append("optional_built")
+    if len(plans) > 1:
+        feats.append("nested_plans")
+    return feats
+
+
 def _cone_check(item, rng, proj, ref, rebuild, flavour, report, count, fail, root):
     pre = graph_relations(ref.graph)
     if "cone_edits" in item:
         edits, edited = item["cone_edits"]
     else:
-        edits, edited = plan_source_edits(rng, proj, pre)
+        edits, edited = plan_source_edits(rng, proj, pre, env_edits=(flavour == "restart"))
     if not edits:
         return
     report["cone_edits"] = [edits, edited]
@@ -735,9 +946,39 @@ def _cone_check(item, rng, proj, ref, rebuild, flavour, report, count, fail, roo
     report["nbuilds"] += 1
     post = graph_relations(new.graph)
     executed = new.executed()
+    skipped = sorted({e[1] for e in new.events if e[0] == "SKIP"})
     count("cone:rebuilds")
     count("cone:executed", len(executed))
+    count("cone:skipped", len(skipped))
     count(f"cone:rc:{e3.rc_class(new.returncode)}")
+    # distribution of the shapes the oracle reached: the graph before, what was edited, what ran / was skipped
+    shape = project_shape(pre)
+    count("cone:shape:" + ("+".join(shape) or "plain"))
+    for feat in shape:
+        count("cone:project_with:" + feat)
+    paths, names = split_edited(edited)
+    count(f"cone:edit:paths={min(len(paths), 3)},variables={len(names)}")
+    both = {l: i for g in (pre, post) for l, i in g.items()}
+    for what, labels in (("executed", set(executed)), ("skipped", set(skipped))):
+        for l in labels:
+            i = both.get(l)
+            if i is None:
+                continue
+            if i["dyn_inputs"]:
+                count(f"cone:{what}:step_with_amended_inputs")
+            if i["nglobs"]:
+                count(f"cone:{what}:glob_owner")
+            if i["env"]:
+                count(f"cone:{what}:step_tracking_variables")
+            if i["need"] == "OPTIONAL":
+                count(f"cone:{what}:optional_step")
+            if i["need"] == "PLAN":
+                count(f"cone:{what}:plan_step")
+            if i["creator"] not in (None, "./plan.py"):
+                count(f"cone:{what}:step_of_nested_plan")
+    report["cone_log"] = {"ran": sorted(set(executed)), "skipped": skipped,
+                          "changed": sorted(p for p in set(ref.files) | set(new.files)
+                                            if ref.files.get(p) != new.files.get(p))}
     if new.error:
         fail(f"oracle:cone:{flavour}:serve-raised", new.error)
     bad = unjustified(executed, edited, pre, post)
@@ -746,11 +987,23 @@ def _cone_check(item, rng, proj, ref, rebuild, flavour, report, count, fail, roo
     key = (tuple(sorted(set(executed))), tuple(sorted(edited)))
     report.setdefault("cone_keys", []).append([list(key[0]), list(key[1])])
     if bad:
-        fail(f"oracle:cone:{flavour}:executed-outside-cone",
-             f"edited {edited}; executed {executed}; not justified by any clause: {bad}",
-             {"edited": edited, "executed": executed, "unjustified": bad})
+        # the circumstance of the known finding D38 and nothing else goes under its signature
+        needed_by = {l: optional_upstream_shape(l, executed, pre, post) for l in bad}
+        d38 = sorted(l for l in bad if needed_by[l])
+        rest = sorted(l for l in bad if not needed_by[l])
+        if d38:
+            count("cone:optional-step-needed-by-an-edited-plan")
+            fail(OPTIONAL_UPSTREAM_SIGNATURE,
+                 f"({flavour}) edited {edited}; executed {executed}; idle OPTIONAL steps executed because a step "
+                 f"declared or redefined by the rebuild consumes their output: { {l: needed_by[l] for l in d38} }",
+                 {"edited": edited, "executed": executed, "unjustified": d38, "needed_by": needed_by,
+                  "flavour": flavour})
+        if rest:
+            fail(f"oracle:cone:{flavour}:executed-outside-cone",
+                 f"edited {edited}; executed {executed}; not justified by any clause: {rest}",
+                 {"edited": edited, "executed": executed, "unjustified": rest})
     if new.returncode == OK_RC and not new.error:
-        causeless = rerun_without_cause(executed, edited, pre, post, ref.files, new.files)
+        causeless = rerun_without_cause(executed, edited, pre, post, ref.files, new.files, report["stats"])
         count("cone:skip_rule_checked", len(set(executed)))
         if causeless:
             fail(f"oracle:cone:{flavour}:executed-with-unchanged-inputs",
@@ -792,6 +1045,7 @@ def _run_restart(item, rng, proj, history, root, kw, report, count, fail):
         return e3.build(root, proj.program, env=dict(proj.env), schedule=schedule, **kw)
 
     ref = build()
+    report["first_ran"] = sorted(set(ref.executed()))
     phases = list(history) + [None]
     for phase in phases:
         count(f"rc:{e3.rc_class(ref.returncode)}:{ref.returncode}")
@@ -827,6 +1081,7 @@ def _run_watch(item, rng, proj, history, root, kw, report, count, fail):
     with e3.WatchSession(root, proj.program, env=dict(proj.env), **kw) as ws:
         report["nbuilds"] += 1
         ref = ws.first()
+        report["first_ran"] = sorted(set(ref.executed()))
         phases = list(history) + [None]
 
         def rebuild(schedule=None):
